@@ -3,5 +3,5 @@
 #include "json.h"
 void dump_value(const char *key, json_object *o);
 void dump_none(const char *key);
-extern int dump_bits, dump_fmt;
+extern int dump_bits, dump_fmt, dump_depth_cap;
 #endif
